@@ -34,7 +34,14 @@ type opKind struct {
 
 func newCodecImpl() Impl { return &codecImpl{buf: commit.NewBuffer(64)} }
 
-func (c *codecImpl) Close() {}
+// Close releases the log writer of the case (its compressor runs goroutines and holds megabyte buffers: a hundred
+// thousand cases of the thorough tier must not keep theirs)
+func (c *codecImpl) Close() {
+	if c.logW != nil {
+		c.logW.Close()
+		c.logW = nil
+	}
+}
 
 func hexOf(b []byte) string {
 	if len(b) == 0 {
@@ -305,6 +312,7 @@ func (c *codecImpl) Exec(line string) string {
 		}
 		return c.swapMany(uint32(ch), []swapReq{{k1, w[3], v1}, {k2, w[6], v2}})
 	case w[0] == "log-new" && len(w) == 1:
+		c.Close()
 		c.logB = &bytes.Buffer{}
 		c.logW = commit.Open(c.logB)
 		return "ok"
